@@ -406,9 +406,57 @@ func newBndProver(c *Ctx, at ssa.Instruction, depth int) *bndProver {
 	return p
 }
 
-// branchFacts: conditions of the branches that dominate the query block.
+// branchFacts: conditions of the branches that dominate the query block; at a merge point, what
+// the conditions of all incoming edges have in common (a != 1 && a != 2 failing means a is 1 or 2:
+// 1 <= a <= 2).
 func (p *bndProver) branchFacts() {
 	for d := p.blk; d != nil; d = d.Idom() {
+		if len(d.Preds) > 1 {
+			var common map[[2]bnode]int64
+			ok := true
+			for _, pr := range d.Preds {
+				if d.Dominates(pr) { // back edge
+					ok = false
+					break
+				}
+				// the branch that governs this edge: the predecessor's own, or — when the edge comes
+				// out of straight-line code — the one that led into that code
+				src, dst := pr, d
+				for hops := 0; hops < 4; hops++ {
+					if _, isIf := src.Instrs[len(src.Instrs)-1].(*ssa.If); isIf {
+						break
+					}
+					if len(src.Preds) != 1 {
+						break
+					}
+					src, dst = src.Preds[0], src
+				}
+				iff, isIf := src.Instrs[len(src.Instrs)-1].(*ssa.If)
+				if !isIf || src.Succs[0] == src.Succs[1] {
+					ok = false
+					break
+				}
+				q := &bndProver{c: p.c, f: p.f, blk: src, seen: map[bnode]bool{}, facts: map[[2]bnode]int64{}, depth: 3}
+				q.condFact(iff.Cond, src.Succs[0] == dst, 0)
+				if common == nil {
+					common = q.facts
+					continue
+				}
+				for k, cst := range common {
+					if c2, has := q.facts[k]; !has {
+						delete(common, k)
+					} else if c2 > cst {
+						common[k] = c2
+					}
+				}
+			}
+			if ok {
+				for k, cst := range common {
+					p.le(blin{n: k[0]}, blin{n: k[1], c: cst})
+				}
+			}
+			continue
+		}
 		if len(d.Preds) != 1 {
 			continue
 		}
@@ -1298,8 +1346,17 @@ func runBND(c *Ctx, r *Result, rule string, fns []*ssa.Function, reach *Reach, r
 	for _, x := range residuals {
 		byLine[x.bcePos] = append(byLine[x.bcePos], x)
 	}
+	type pending struct {
+		f       *ssa.Function
+		s       *bndSite
+		key     excSiteKey
+		oldKey  string
+		missing []string
+	}
+	var pend []pending
 	for _, f := range fns {
 		ord := map[string]int{}
+		oldOrd := map[string]int{}
 		for _, s := range bndSitesIn(c, f) {
 			res.sites++
 			key := bcePos{c.relFile(s.pos.Filename), s.pos.Line}
@@ -1319,60 +1376,90 @@ func runBND(c *Ctx, r *Result, rule string, fns []*ssa.Function, reach *Reach, r
 				continue
 			}
 			res.residual++
-			text := exprTextAt(c, s.ins.Pos())
-			if text == "" {
-				text = s.kind
+			fp, text := s.kind, s.kind
+			if e, info := indexExprAt(c, s.ins.Pos()); e != nil {
+				fp, text = exprFingerprint(info, e), types.ExprString(e)
 			}
-			k := exceptionKey(f) + ":" + text
-			ord[k]++
-			o := Obligation{Rule: rule, Key: fmt.Sprintf("%s#%d", k, ord[k]), Fn: shortFn(f), Pos: c.W.Pos(s.ins.Pos()), Nontrivial: true}
-			missing := bndProve(c, s)
-			full := fmt.Sprintf("%s#%d", k, ord[k])
-			exc, hasExc := bndExceptions[full]
-			var unexcused []string
-			for _, m := range missing {
-				if !hasExc || !strings.Contains(" "+exc.parts+" ", " "+m+" ") {
-					unexcused = append(unexcused, m)
-				}
-			}
-			needsOK := true
-			if hasExc && exc.needs != "" {
-				if rest, atCallers := strings.CutPrefix(exc.needs, "@callers:"); atCallers {
-					// every call of this function is preceded by a call to the named one
-					sites, ok := c.staticCallers(exceptionRoot(f))
-					needsOK = ok && len(sites) > 0
-					for _, cs := range sites {
-						if !dominatedByCallTo(cs, rest) {
-							needsOK = false
-						}
-					}
-				} else {
-					needsOK = dominatedByCallTo(s.ins, exc.needs)
-				}
-			}
-			switch {
-			case len(missing) == 0:
-				o.Verdict, o.Reason = Discharged, "in range: dominating comparisons, definitions and library post-conditions give 0 <= low <= high <= len (difference-constraint proof)"
-				res.discharged++
-				if hasExc {
-					res.stale = append(res.stale, full)
-				}
-			case len(unexcused) == 0 && needsOK:
-				o.Verdict, o.Reason = Exception, "reviewed ("+strings.Join(missing, ", ")+"; the rest is proved): "+exc.reason
-				res.exceptions++
-			case len(unexcused) == 0:
-				o.Verdict, o.Reason = Finding, "the reviewed argument for this site relies on a preceding call to "+exc.needs+", which no longer dominates it"
-				res.findings++
-			default:
-				o.Verdict = Finding
-				o.Reason = "the compiler keeps a bounds check here and no proof was found for: " + strings.Join(unexcused, "; ") + " — an out-of-range value panics"
-				res.findings++
-			}
-			if o.Verdict == Finding && reach != nil {
-				o.Path = reach.Path(f)
-			}
-			r.Add(o)
+			fk := exceptionKey(f) + ":" + fp
+			ord[fk]++
+			ok := exceptionKey(f) + ":" + text
+			oldOrd[ok]++
+			pend = append(pend, pending{f: f, s: s, key: excSiteKey{exceptionKey(f), fp, ord[fk]}, oldKey: fmt.Sprintf("%s#%d", ok, oldOrd[ok]), missing: bndProve(c, s)})
 		}
+	}
+	var keys []string
+	for k := range bndExceptions {
+		keys = append(keys, k)
+	}
+	var siteKeys, needKeys []excSiteKey
+	for _, p := range pend {
+		siteKeys = append(siteKeys, p.key)
+		if len(p.missing) > 0 {
+			needKeys = append(needKeys, p.key)
+		}
+	}
+	resolver := newExcResolver(c, keys, siteKeys, needKeys, fns, true)
+	for _, p := range pend {
+		f, s, missing := p.f, p.s, p.missing
+		full := p.key.String()
+		if os.Getenv("VERIF_BND_KEYS") != "" {
+			fmt.Printf("BNDKEY\t%s\t%s\n", p.oldKey, full)
+		}
+		o := Obligation{Rule: rule, Key: full, Fn: shortFn(f), Pos: c.W.Pos(s.ins.Pos()), Nontrivial: true}
+		var exc bndException
+		hasExc := false
+		matched := ""
+		if len(missing) > 0 {
+			if matched = resolver.resolve(p.key); matched != "" {
+				exc, hasExc = bndExceptions[matched], true
+			}
+		} else if _, direct := bndExceptions[full]; direct {
+			res.stale = append(res.stale, full)
+		}
+		var unexcused []string
+		for _, m := range missing {
+			if !hasExc || !strings.Contains(" "+exc.parts+" ", " "+m+" ") {
+				unexcused = append(unexcused, m)
+			}
+		}
+		needsOK := true
+		if hasExc && exc.needs != "" {
+			if rest, atCallers := strings.CutPrefix(exc.needs, "@callers:"); atCallers {
+				// every call of this function is preceded by a call to the named one
+				sites, ok := c.staticCallers(exceptionRoot(f))
+				needsOK = ok && len(sites) > 0
+				for _, cs := range sites {
+					if !dominatedByCallTo(cs, rest) {
+						needsOK = false
+					}
+				}
+			} else {
+				needsOK = dominatedByCallTo(s.ins, exc.needs)
+			}
+		}
+		moved := ""
+		if hasExc && matched != full {
+			moved = " [entry " + matched + ", whose own site is gone: the construct was renamed or moved]"
+		}
+		switch {
+		case len(missing) == 0:
+			o.Verdict, o.Reason = Discharged, "in range: dominating comparisons, definitions and library post-conditions give 0 <= low <= high <= len (difference-constraint proof)"
+			res.discharged++
+		case len(unexcused) == 0 && needsOK:
+			o.Verdict, o.Reason = Exception, "reviewed ("+strings.Join(missing, ", ")+"; the rest is proved): "+exc.reason+moved
+			res.exceptions++
+		case len(unexcused) == 0:
+			o.Verdict, o.Reason = Finding, "the reviewed argument for this site relies on a preceding call to "+exc.needs+", which no longer dominates it"
+			res.findings++
+		default:
+			o.Verdict = Finding
+			o.Reason = "the compiler keeps a bounds check here and no proof was found for: " + strings.Join(unexcused, "; ") + " — an out-of-range value panics"
+			res.findings++
+		}
+		if o.Verdict == Finding && reach != nil {
+			o.Path = reach.Path(f)
+		}
+		r.Add(o)
 	}
 	return res
 }
@@ -1441,6 +1528,7 @@ type bndMem struct {
 	wholeStored  map[string]bool // named struct types assigned as a whole through a pointer
 	mutableGlob  map[*ssa.Global]bool
 	reps         map[*ssa.Function]map[string]ssa.Value
+	local        map[ssa.Value]ssa.Value // re-reads of a mutable field with no write in between
 }
 
 func bndFieldKey(fa *ssa.FieldAddr) (string, string) {
@@ -1472,7 +1560,7 @@ func (c *Ctx) bndMemory() *bndMem {
 	if c.bmem != nil {
 		return c.bmem
 	}
-	m := &bndMem{mutableField: map[string]bool{}, wholeStored: map[string]bool{}, mutableGlob: map[*ssa.Global]bool{}, reps: map[*ssa.Function]map[string]ssa.Value{}}
+	m := &bndMem{mutableField: map[string]bool{}, wholeStored: map[string]bool{}, mutableGlob: map[*ssa.Global]bool{}, reps: map[*ssa.Function]map[string]ssa.Value{}, local: map[ssa.Value]ssa.Value{}}
 	c.bmem = m
 	for _, f := range c.G.Funcs {
 		for _, ins := range instrsIn(f) {
@@ -1603,7 +1691,7 @@ func (c *Ctx) canon(v ssa.Value) ssa.Value {
 	}
 	k := c.memKey(v, 0)
 	if k == "" {
-		return v
+		return c.rereadCanon(v)
 	}
 	ins, ok := v.(ssa.Instruction)
 	if !ok {
@@ -1638,6 +1726,184 @@ func (c *Ctx) canon(v ssa.Value) ssa.Value {
 		}
 	}
 	return v
+}
+
+// rereadCanon: v loads a struct field that may change during an evaluation; its representative is
+// the earliest load of the same field of the same object that is executed before v on every
+// path with no instruction in between that could write the field (a store of a value of the
+// field's type or of a whole struct/array, or a call that is not known to be read-only).
+func (c *Ctx) rereadCanon(v ssa.Value) ssa.Value {
+	ld, ok := v.(*ssa.UnOp)
+	if !ok || ld.Op != token.MUL {
+		return v
+	}
+	fa, ok := ld.X.(*ssa.FieldAddr)
+	if !ok {
+		return v
+	}
+	m := c.bndMemory()
+	if r, ok := m.local[v]; ok {
+		return r
+	}
+	m.local[v] = v // cut recursion
+	rep := v
+	base := c.canon(fa.X)
+	for _, b := range ld.Parent().Blocks {
+		if rep != v {
+			break
+		}
+		for _, ins := range b.Instrs {
+			l0, ok := ins.(*ssa.UnOp)
+			if !ok || l0 == ld || l0.Op != token.MUL {
+				continue
+			}
+			f0, ok := l0.X.(*ssa.FieldAddr)
+			if !ok || f0.Field != fa.Field || !types.Identical(f0.X.Type(), fa.X.Type()) {
+				continue
+			}
+			if f0.X != fa.X && c.canon(f0.X) != base {
+				continue
+			}
+			if !instrBefore(l0, ld) || !noWriteBetween(l0, ld, ld.Type()) {
+				continue
+			}
+			rep = c.rereadCanon(l0)
+			break
+		}
+	}
+	m.local[v] = rep
+	return rep
+}
+
+// noWriteBetween: no instruction on any path from a to b (a executed before b on every path)
+// can write a memory location of type t.
+func noWriteBetween(a, b ssa.Instruction, t types.Type) bool {
+	composite := false
+	switch t.Underlying().(type) {
+	case *types.Struct, *types.Array:
+		composite = true // a store to one of its parts changes it
+	}
+	interferes := func(ins ssa.Instruction) bool {
+		switch x := ins.(type) {
+		case *ssa.Store:
+			if composite {
+				return true
+			}
+			vt := x.Val.Type()
+			if types.Identical(vt, t) {
+				return true
+			}
+			switch vt.Underlying().(type) {
+			case *types.Struct, *types.Array:
+				return true
+			}
+			return false
+		case *ssa.Go, *ssa.Defer, *ssa.Select, *ssa.RunDefers:
+			return true
+		case *ssa.Call:
+			if bi, isB := x.Call.Value.(*ssa.Builtin); isB {
+				switch bi.Name() {
+				case "len", "cap", "append":
+					return false
+				}
+				return true
+			}
+			callee := x.Call.StaticCallee()
+			if callee == nil {
+				return true
+			}
+			if isReflectValue(recvType(callee)) {
+				switch callee.Name() {
+				case "Len", "Kind", "IsValid", "IsNil", "CanInterface", "Type", "NumField", "CanAddr":
+					return false
+				}
+				return true
+			}
+			return !(len(callee.Blocks) > 0 && readOnlyFunc(callee, 0))
+		}
+		return false
+	}
+	ba, bb := a.Block(), b.Block()
+	if ba == bb {
+		on := false
+		for _, ins := range ba.Instrs {
+			if ins == b {
+				return true
+			}
+			if on && interferes(ins) {
+				return false
+			}
+			if ins == a {
+				on = true
+			}
+		}
+		return false
+	}
+	// blocks on a path from ba to bb that does not come back to ba
+	fwd := map[*ssa.BasicBlock]bool{}
+	var walk func(x *ssa.BasicBlock)
+	walk = func(x *ssa.BasicBlock) {
+		if x == ba || fwd[x] {
+			return
+		}
+		fwd[x] = true
+		if x == bb {
+			// beyond bb only matters if bb can be reached again, which the walk below covers
+		}
+		for _, s := range x.Succs {
+			walk(s)
+		}
+	}
+	for _, s := range ba.Succs {
+		walk(s)
+	}
+	bwd := map[*ssa.BasicBlock]bool{}
+	var back func(x *ssa.BasicBlock)
+	back = func(x *ssa.BasicBlock) {
+		if x == ba || bwd[x] {
+			return
+		}
+		bwd[x] = true
+		for _, p := range x.Preds {
+			back(p)
+		}
+	}
+	back(bb)
+	on := false
+	for _, ins := range ba.Instrs {
+		if on && interferes(ins) {
+			return false
+		}
+		if ins == a {
+			on = true
+		}
+	}
+	// bb again after bb (a cycle that avoids ba): the whole of bb lies between
+	bbAgain := false
+	for _, s := range bb.Succs {
+		if s != ba && bwd[s] && fwd[s] {
+			bbAgain = true
+		}
+	}
+	for _, ins := range bb.Instrs {
+		if ins == b && !bbAgain {
+			break
+		}
+		if interferes(ins) {
+			return false
+		}
+	}
+	for x := range fwd {
+		if x == bb || !bwd[x] {
+			continue
+		}
+		for _, ins := range x.Instrs {
+			if interferes(ins) {
+				return false
+			}
+		}
+	}
+	return true
 }
 
 // spillOnly: a local struct cell that is written once as a whole (the spill of a value
